@@ -468,6 +468,67 @@ pub fn main(tier: Tier, replay: Option<String>) -> i32 {
         let first: Vec<(Value, Failure)> = mp_fail.into_iter().take(1).collect();
         rep.add_direct("cli/dictionary-with-600-parts-of-speech", mp_cases.max(1), mp_cases.max(1), mp_cases.max(1), vec![], first, json!({"words": 600, "parts_of_speech": 600, "flag_sets": ["default", "-a", "-w"]}));
     }
+    // ---------------- CLI over configurations of an unusual shape: the same user dictionary listed twice (the library
+    // loads it twice, as dictionaries 1 and 2), and listed twice with another one in between
+    {
+        let mut q_fail: Vec<(Value, Failure)> = Vec::new();
+        let mut q_cases = 0u64;
+        let w2 = match World::build(spec_user("W-io-layers", 2, true)).map(Arc::new).map_err(|e| e.to_string()).and_then(|w| write_disk_world(&w).map(|p| (w, p))) {
+            Ok(x) => x,
+            Err(e) => {
+                eprintln!("machinery failure: W-io-layers: {}", e);
+                return 2;
+            }
+        };
+        let (wl, (cfgp, resp)) = w2;
+        let base: Value = serde_json::from_str(&std::fs::read_to_string(&cfgp).expect("read cfg")).expect("cfg json");
+        let lines = "東京府に行く\nすだち\nぴらる京都かぼす\n府\n".to_string();
+        let input_path = work_dir().join("cli_input_layers.txt");
+        std::fs::write(&input_path, &lines).expect("write input");
+        for (label, users) in [("listed twice", vec!["user0.dic", "user0.dic"]), ("twice around another", vec!["user0.dic", "user1.dic", "user0.dic"]), ("two, then the first again twice", vec!["user1.dic", "user0.dic", "user0.dic"])] {
+            let mut cfg = base.clone();
+            cfg["userDict"] = json!(users);
+            let path = wl.dir.join(format!("sudachi_{}.json", users.len() * 10 + label.len()));
+            std::fs::write(&path, serde_json::to_string_pretty(&cfg).unwrap()).expect("write cfg");
+            let lib = sudachi::config::Config::new(Some(path.clone()), Some(resp.clone()), None).map_err(|e| e.to_string()).and_then(|c| sudachi::dic::dictionary::JapaneseDictionary::from_cfg(&c).map_err(|e| e.to_string()));
+            let lib: Dict = match lib {
+                Ok(d) => Arc::new(d),
+                Err(e) => {
+                    eprintln!("machinery failure: the library cannot load the configuration '{}': {}", label, e);
+                    return 2;
+                }
+            };
+            for f in flags.iter().filter(|f| f.route == 0 && (f.name == "default" || f.name == "-a" || f.name == "-m B -a")) {
+                q_cases += 1;
+                let expected = match cli_reference(&lib, &lines, f) {
+                    Ok(s) => s,
+                    Err(e) => {
+                        eprintln!("machinery failure: reference failed: {}", e);
+                        return 2;
+                    }
+                };
+                match Command::new(&cli).arg("-r").arg(&path).arg("-p").arg(&resp).args(&f.args).arg(&input_path).output() {
+                    Err(e) => {
+                        eprintln!("machinery failure: cannot run {}: {}", cli.display(), e);
+                        return 2;
+                    }
+                    Ok(o) => {
+                        let got = String::from_utf8_lossy(&o.stdout).to_string();
+                        let st = json!({"file": lines, "flags": f.name, "userDict": users});
+                        if !o.status.success() {
+                            q_fail.push((st, Failure::new("cli-crashed", format!("sudachi {} with userDict {:?} exited with {:?}: {}", f.name, users, o.status.code(), String::from_utf8_lossy(&o.stderr).chars().take(200).collect::<String>()))));
+                        } else if got != expected {
+                            let (gl, el): (Vec<&str>, Vec<&str>) = (got.lines().collect(), expected.lines().collect());
+                            let k = gl.iter().zip(el.iter()).position(|(a, b)| a != b).unwrap_or(gl.len().min(el.len()));
+                            q_fail.push((st, Failure::new("cli-output-differs", format!("sudachi {} with userDict {:?} ({}): output line {} is {:?}, the library (same configuration file) gives {:?}", f.name, users, label, k, gl.get(k), el.get(k)))));
+                        }
+                    }
+                }
+            }
+        }
+        let first: Vec<(Value, Failure)> = q_fail.into_iter().take(1).collect();
+        rep.add_direct("cli/user-dictionary-listed-several-times", q_cases.max(1), q_cases.max(1), q_cases.max(1), vec![], first, json!({"userDict_lists": 3, "flag_sets": ["default", "-a", "-m B -a"]}));
+    }
     // ---------------- Python
     let pyroot = match assemble_python(&so) {
         Ok(p) => p,
